@@ -204,6 +204,19 @@ FIFTH_PASS = {
 }
 for _k, _v in FIFTH_PASS.items():
     CLAIMED[_k]["text"] += _v
+SIXTH_PASS = {
+ "C01": " Sixth pass: self-comparison also through locals filled by sqlx.Has; each side of a from/to pair is normalised under a condition on that side only.",
+ "C02": " Sixth pass: each side of a from/to pair is normalised under a condition on that side only (ReferenceChanged).",
+ "C04": " Sixth pass: the expansion of a Modify* builds Drop* from .From and Add* from .To (mirrored in reverse lists).",
+ "C05": " Sixth pass: the SQLite inspector's Scan order rule (R03q) is also decided here, since a swapped STRICT/WITHOUT ROWID flag changes value affinities on a rebuild.",
+ "C07": " Sixth pass: a dialect scanned with BackslashEscapes quotes literals through strconv.Quote or an explicit backslash replacement; a %s argument produced by a named function returning only constants is accepted.",
+ "C09": " Sixth pass: an anchored method turned into a package function of the same name is still resolved.",
+ "C11": " Sixth pass: (*LocalFile).Directive hands no required prefix to the directive matcher.",
+ "C19": " Sixth pass: a config literal rebuilt from a value of the same struct type sets every field (stateReader env:// hop).",
+ "C20": " Sixth pass: no package-level variable holds a running hash or a bytes.Buffer / strings.Builder.",
+}
+for _k, _v in SIXTH_PASS.items():
+    CLAIMED[_k]["text"] += _v
 
 NA = {}
 
